@@ -3,4 +3,4 @@
 set -e
 cd "$(dirname "$0")"
 export CARGO_NET_OFFLINE=true
-./check --build rel
+./check --build rel asan
